@@ -88,6 +88,19 @@ static int gen_cells(int type, int rows, int cols, int f,
 	    cells[k] = 10.0 * (k + 1) + 3.0 * f + I * (2.0 * k - 5.0 * f + 1.0);
 	return 0;
     }
+    if (g_variant == 2 && rows == 2 && cols == 2) {
+	/* a series element between the two ports: its Y matrix is exactly
+	   singular (rank 1), it has no Z matrix, and every other
+	   representation exists */
+	double complex y = 1.0 / (30.0 + 40.0 * I + 5.0 * f);
+	double complex ym[4] = { y, -y, -y, y };
+	if (type == VPT_Y) {
+	    memcpy(cells, ym, sizeof(ym));
+	    return 0;
+	}
+	return ports_convert(2, PT_Y, ym, type - 1, cells, z0) == PORTS_OK ?
+	    0 : -1;
+    }
     double complex s[MAXCELL];
     gen_s(rows, f, s);
     if (type == VPT_S) {
@@ -762,7 +775,8 @@ static void run_b(long idx, vf_result *r)
     vf_desc(r, "chain %s -> %s -> %s against %s -> %s, 2x2, z0 mode %d, %d "
 	    "frequencies%s", vdm_type_name[ta], vdm_type_name[tb],
 	    vdm_type_name[tc], vdm_type_name[ta], vdm_type_name[tc], zmode,
-	    nf, g_variant ? " [second network]" : "");
+	    nf, g_variant == 2 ? " [series element]" : g_variant ?
+	    " [second network]" : "");
     vf_errlog_reset(&L);
     if (!vdm_dims_ok(ta, 2, 2)) {
 	vf_outcome(r, "chain: no such input");
@@ -773,6 +787,10 @@ static void run_b(long idx, vf_result *r)
     int c2 = c1 == VDM_REJECT ? VDM_REJECT : vdm_classify(tb, tc, r2, 2);
     int c3 = vdm_classify(ta, tc, 2, 2);
 
+    if (g_variant == 2 && ta == VPT_Z) {
+	vf_outcome(r, "chain: the series element has no Z matrix");
+	return;
+    }
     vnadata_t *x = make_input(ta, 2, 2, nf, zmode, r);
     vnadata_t *y = new_obj(), *w = new_obj();
     if (x == NULL || y == NULL || w == NULL)
@@ -883,13 +901,17 @@ done:
 
 static long count(int tier)
 {
-    return (NPARTA + NPARTB) * (tier ? 2 : 1);
+    /* + the chains once more on a series element (singular Y) */
+    return (NPARTA + NPARTB) * (tier ? 2 : 1) + NPARTB;
 }
 
 static void run(int tier, long idx, vf_result *r)
 {
     g_variant = 0;
-    if (tier) {
+    if (idx >= (NPARTA + NPARTB) * (tier ? 2 : 1)) {
+	g_variant = 2;
+	idx = idx - (NPARTA + NPARTB) * (tier ? 2 : 1) + NPARTA;
+    } else if (tier) {
 	g_variant = (int)(idx / (NPARTA + NPARTB));
 	idx %= NPARTA + NPARTB;
     }
